@@ -14,9 +14,12 @@ import Cellml.C17.Worklist
       rendering of a `while`): with `C17.stepBound |deque| unch` iterations of fuel the test is false at the end and the
       state is that of `genConnectLoop`.
 
-    Not from the source text (hand-written here, three tokens): the start values `unchanged_loop_count = 0` (parser.py,
-    the statement before the `while`) and the state `Load.initState vt` (`Variable.__init__`: a variable without an `in`
-    interface is its own `assigned_to`; `connected_variable_mapping = {}`), in `genConnect`. -/
+    The start values of `genConnect` — `unchanged_loop_count = 0` and an empty `connected_variable_mapping` — are written
+    here by hand, but they ARE what the generated set-up part of `_add_connections` returns
+    (`Gen.ConnSetup.addConnectionsSetup`, `LoaderClose.connSetup_tie`); `GenA.genAddConnections` (Tie/LoaderGen.lean)
+    runs the generated set-up and passes ITS results to `genConnectLoop`, and `genAddConnections_eq` shows that this is
+    `genConnect` on the deque of `Load.directAll`. Only `Load.initState vt` (`Variable.__init__`: a variable without an
+    `in` interface is its own `assigned_to`) is a leaf: the state `Model.add_variable` leaves. -/
 
 namespace Cellml.Tie.GenA
 open Load Cellml.Gen Cellml.Tie
